@@ -154,3 +154,8 @@ LEVEL_NOTE = ("Trusted: Lean kernel (+propext, Classical.choice, Quot.sound), th
               "is proved to be membership among the single column's values (inLoop_subquery_rows; several columns = error); that "
               "the rows are what the sub-query returns stand-alone is C07's statement and is covered here by the correspondence.")
 TECHNIQUE = "Lean 4 proof (induction over predicate syntax and row list) + differential model/implementation correspondence"
+
+# the text of the functions this property's model mirrors is a regenerated fact (Obligations/PinC01: closed by rfl)
+FACTS = True
+LEAN_TARGETS = list(LEAN_TARGETS) + ["Genql.Obligations.PinC01"]
+THEOREMS = list(THEOREMS) + ["Genql.Obligations.PinC01.pinned_text"]
